@@ -140,4 +140,8 @@ pub struct ParamInsertionInfo {
     pub char_pos: usize,
     /// Whether a comma needs to be added before the new parameter.
     pub needs_comma: bool,
+    /// Whether a comma needs to be added after the new parameter (it is inserted in
+    /// front of the existing parameters because all of them have defaults or are
+    /// `*args` / keyword-only / `**kwargs`).
+    pub needs_trailing_comma: bool,
 }
